@@ -703,7 +703,8 @@ func (c *CharSet) addCategory(categoryName string, negate, caseInsensitive bool)
 
 	}
 
-	if caseInsensitive && (categoryName == "Ll" || categoryName == "Lu" || categoryName == "Lt") {
+	// compare the table, not the spelling: the long aliases (Uppercase_Letter, ...) name the same categories
+	if t := unicodeCategories[categoryName]; caseInsensitive && (t == unicode.Ll || t == unicode.Lu || t == unicode.Lt) {
 		// when RegexOptions.IgnoreCase is specified then {Ll} {Lu} and {Lt} cases should all match
 		c.addCategories(
 			Category{Cat: "Ll", Negate: negate},
